@@ -19,8 +19,13 @@ class StepTimeout(BaseException):
     """wall-clock cap of one call (the properties say nothing about speed: such a step is unjudged)"""
 
 
+EXIT_AFTER = False
+
+
 def capped(seconds, fn):
     def handler(signum, frame):
+        global EXIT_AFTER
+        EXIT_AFTER = True      # objects in flight when the timer fired may be half-updated: fresh process for the next task
         raise StepTimeout()
     old = signal.signal(signal.SIGALRM, handler)
     signal.setitimer(signal.ITIMER_REAL, seconds)
